@@ -434,6 +434,43 @@ def run(ck):
             sim.drain()
         sim.settle()
         ck.nontrivial(('collision', w % 4))
+        # the same collision INSIDE one IKE_SA: P1 picks, as its inbound SPI of a second CHILD_SA, the hub's inbound SPI of the first one
+        sim2, hub2, (q1, q2) = S.make_star(base + 991 * w + 7, peers=2)
+        sim2.case = {'collision': 'same-ike-sa', 'seed': base + 991 * w + 7}
+        for m in mons:
+            m.reset()
+            sim2.monitors.append(m.on_step)
+        sim2.acquire(q1, 0, sport=6001)
+        sim2.drain()
+        if not hub2.ctl.ike_sas or not hub2.ctl.ike_sas[0].child_sas:
+            continue
+        x_spi = bytes(hub2.ctl.ike_sas[0].child_sas[0].inbound_spi)
+
+        class OsShim2:
+            def __getattr__(self, n):
+                return getattr(real_os, n)
+
+            def urandom(self, k):
+                if k == 4 and S.W.cur is q1:
+                    return x_spi
+                return real_os.urandom(k)
+        S.r_ikesa.os = OsShim2()
+        try:
+            sim2.acquire(q1, 0, sport=6002)
+            sim2.drain()
+        finally:
+            S.r_ikesa.os = real_os
+        hs = hub2.ctl.ike_sas[0]
+        if len(hs.child_sas) == 2 and bytes(hs.child_sas[1].outbound_spi) == x_spi:
+            ck.count('collision.same_ike_sa_setups')
+            order2 = [(str(hub2.addrs[0]), x_spi), (str(q1.addrs[0]), x_spi)]
+            if w % 2:
+                order2.reverse()
+            for daddr, spi in order2:
+                sim2.expire(hub2, spi, hard=bool(w % 4 < 2), daddr=daddr)
+                sim2.drain()
+            sim2.settle()
+            ck.nontrivial(('collision-same-ike-sa', w % 4))
 
 
 def verdict(ck):
@@ -446,6 +483,7 @@ def verdict(ck):
     ck.floor('status queries', ck.counters['status.queries'], 1000)
     ck.floor('expire notices', ck.counters['expire.checked'], 100)
     ck.floor('SPI collision set-ups', ck.counters['collision.setups'], 6)
+    ck.floor('SPI collision set-ups inside one IKE_SA', ck.counters['collision.same_ike_sa_setups'], 6)
     ck.floor('held-DELETE histories', ck.counters['held.leaves'], 40)
     ck.floor('unanswered-request histories', ck.counters['unanswered.histories'], 25)
     return None
